@@ -14,7 +14,7 @@ API
 ---
 generate(rng, **opts) -> (text, DatModel)              random well-formed file;  opts: see random_model
 random_model(rng, n_decl=(4, 30), n_rows=(0, 50), ...) -> DatModel
-DatModel.text() -> str ; DatModel.columns() -> [Column] (raises Malformed) ; DatModel.lines -> [Line] ; .copy()
+DatModel.text() -> str ; DatModel.bytes() -> bytes ; DatModel.columns() -> [Column] (raises Malformed) ; DatModel.lines -> [Line] ; .copy()
 Column: name, desc_words, units, kind ('utim'|'date'|'time'|'float'), values (datetime / date / time / float)
 corrupt(rng, model, kind=None) -> Corruption | None     kind in CORRUPTIONS (None: a random applicable one)
 Corruption: kind, text, model (the corrupted line model), expect ('raise' | 'model' | 'either'), columns (expected
@@ -148,6 +148,10 @@ class DatModel:
     def text(self):
         s = '\n'.join(ln.text() for ln in self.lines)
         return s + '\n' if self.final_newline and self.lines else s
+
+    def bytes(self):
+        """The text as ASCII bytes (for binary file-type detection)."""
+        return self.text().encode('ascii')
 
     def index_of(self, kind):
         return [i for i, ln in enumerate(self.lines) if ln.kind == kind]
@@ -368,11 +372,6 @@ def _pick_row(rng, model):
         return None, None
     k = rng.randrange(len(rows)) if rng.random() < 0.6 else rng.choice([0, len(rows) - 1])
     return rows[k], k
-
-
-def _col_kind(model, j):
-    cols = model.columns()
-    return cols[j].kind
 
 
 def _token_corruption(kind, column_kind, pool, expect='raise'):
